@@ -378,8 +378,8 @@ class Tensor:
         while stack:
             node, children = stack[-1]
             for child in children:
-                if child.requires_grad and child._grad is None:
-                    child.zero_()
+                if child.requires_grad and (child._grad is None or (not child.is_leaf and child not in visited_nodes)):
+                    child.zero_() # a gradient left on a non-leaf by an earlier call must not be propagated again
                 if child not in visited_nodes:
                     visited_nodes.add(child)
                     stack.append((child, iter(child._children)))
